@@ -432,7 +432,7 @@ func (c17) Run(sc *Scenario) *Verdict {
 		case "shared-hcache":
 			return NewHCache(), nil
 		case "shared-libcache":
-			rc := &recCache{inner: spec.VerifNewSimpleCache()}
+			rc := &recCache{inner: LibCache()}
 			return rc, rc
 		}
 		return nil, nil
